@@ -284,6 +284,13 @@ impl CommitKey {
         let mut powers_of_g = Vec::with_capacity(len);
 
         for chunk in bytes[u64::SIZE..].chunks_exact(G1Affine::RAW_SIZE) {
+            // The last raw byte is the infinity flag. Only 0 and 1 encode a
+            // point; any other value must not reach the curve predicates
+            // (they assert on it).
+            if chunk[G1Affine::RAW_SIZE - 1] > 1 {
+                return Err(Error::PointMalformed);
+            }
+
             // Safety: raw-byte chunk size is checked by `chunks_exact`.
             let point = unsafe { G1Affine::from_slice_unchecked(chunk) };
             let point_is_valid =
